@@ -143,7 +143,7 @@ func c04History(c *ctxT, hid int, seed int64) {
 	r := c.R
 	rng := dRand(seed)
 	cfg := genPoolCfg(rng, false)
-	cfg.ERDMA, cfg.Trunk = false, false
+	cfg.ERDMA, cfg.Trunk, cfg.StrayTrunk, cfg.StrayERDMA = false, false, false, false
 	if !cfg.V4 { // the daemon's configuration accepts ipv4 and dual
 		cfg.V4 = true
 	}
